@@ -561,6 +561,13 @@ func SExt(w int, a *Term) *Term {
 	return mk("sext", BV(w), "", 0, w-a.Sort.W, 0, a)
 }
 
+func Concat(a, b *Term) *Term {
+	if a.IsConst() && b.IsConst() && a.Sort.W+b.Sort.W <= 64 {
+		return Const(a.Sort.W+b.Sort.W, a.Val<<uint(b.Sort.W)|b.Val)
+	}
+	return mk("concat", BV(a.Sort.W+b.Sort.W), "", 0, 0, 0, a, b)
+}
+
 func BVNot(a *Term) *Term {
 	if a.IsConst() {
 		return Const(a.Sort.W, ^a.Val)
